@@ -481,8 +481,14 @@ class ExprSynthesizer(AstVisitor[tuple[ast.expr, Type]]):
         # desugaring (for example for iterators in `for` loops). Since those just
         # inherit the span of the sugared code, we could have line breaks there.
         # See https://github.com/quantinuum/guppylang/issues/1301
+        # Such an inherited span can also be shorter than the attribute name itself (the
+        # `q` of `for i in q:` stands in for `q.__hasnext__`). Shifting left by the
+        # length of the name would then leave the line if the code is barely indented
         span = to_span(node)
-        if span.start.line == span.end.line:
+        if (
+            span.start.line == span.end.line
+            and span.end.column - span.start.column > len(node.attr)
+        ):
             attr_span = Span(span.end.shift_left(len(node.attr)), span.end)
         else:
             attr_span = span
